@@ -36,6 +36,7 @@ type mFunc struct {
 type mRef struct {
 	f   *mFunc
 	imp bool
+	by  *mInst // the instance that created the reference (ref.func, element item, its ftab)
 }
 
 type mGlobal struct {
@@ -278,7 +279,7 @@ func (m *model) source(mod string) (*mInst, bool) {
 // directly or as a function reference in a table or global another instance can reach. What it
 // merely imports stays alive and unchanged for the others.
 func (m *model) closable(x *mInst) bool {
-	mine := func(r *mRef) bool { return r != nil && r.f.def == x }
+	mine := func(r *mRef) bool { return r != nil && (r.f.def == x || r.by == x) }
 	others := append([]*mInst{}, m.ghosts...) // failed instances whose functions may live on in tables
 	for _, n := range m.order {
 		others = append(others, m.live[n])
@@ -381,7 +382,7 @@ func (m *model) plan(spec *ModSpec, name string) *plan {
 		in.funcs = append(in.funcs, &mFunc{def: in, modName: spec.Name, idx: in.v.nIF + i, sig: f.Sig, id: f.ID, ops: f.Ops, tail: f.Tail})
 	}
 	for i, f := range in.funcs {
-		in.refs = append(in.refs, &mRef{f: f, imp: i < in.v.nIF})
+		in.refs = append(in.refs, &mRef{f: f, imp: i < in.v.nIF, by: in})
 	}
 	for _, t := range spec.Tables {
 		mt := &mTable{elem: t.Elem, min: t.Min, max: t.Max}
@@ -453,10 +454,12 @@ func (in *mInst) leftInTables() bool {
 }
 
 // escapedToGlobal reports whether an imported funcref global of the (failed) instance holds a
-// reference to one of the instance's own functions (class of finding findDangle).
+// reference that this instance CREATED — to one of its own functions or to a function it
+// imports (class of finding findDangle: nothing keeps the creator alive; on the interpreter a
+// reference made from an import index points into the creator's engine, too).
 func (in *mInst) escapedToGlobal() bool {
 	for i := 0; i < in.v.nIG && i < len(in.globals); i++ {
-		if g := in.globals[i]; g.vt == wasmenc.FuncRef && g.fn != nil && g.fn.f.def == in {
+		if g := in.globals[i]; g.vt == wasmenc.FuncRef && g.fn != nil && (g.fn.by == in || g.fn.f.def == in) {
 			return true
 		}
 	}
